@@ -132,7 +132,10 @@ def render_sig_function(fid: str, params: List[Dict[str, Any]], kind: str, cond_
             f=fid, n=n, g=got_text([n]), d="=CDEFAULT" if n in cond_defaults else ""))
     out.append("def s_{f}({a}):\n    return HUB.capture('snap_{f}', {g})\n".format(f=fid, a=", ".join(names), g=got_text(names)))
     pfull = full + ["result", "OLD"]
-    out.append("def p_{f}({a}):\n    return HUB.cond('post_{f}', {g})\n".format(f=fid, a=", ".join(pfull), g=got_text(pfull)))
+    # (the postcondition takes only every second name; its error factory below asks for all of them: what a factory receives must
+    # not depend on what the condition happens to take)
+    pcond = [n for i, n in enumerate(pfull) if i % 2 == 0]
+    out.append("def p_{f}({a}):\n    return HUB.cond('post_{f}', {g})\n".format(f=fid, a=", ".join(pcond), g=got_text(pcond)))
     # (the error factory is called by keyword: keyword-only parameters let any subset of them have a default of its own, which
     # must never be used instead of the value of the call)
     fac_defaults = set(cond_defaults) | ({"result", "_ARGS"} if cond_defaults else set())
